@@ -10,6 +10,7 @@ import (
 	"os"
 	"os/exec"
 	"path/filepath"
+	"regexp"
 	"sort"
 	"strconv"
 	"strings"
@@ -342,8 +343,8 @@ func describeFailure(p *Prog, cfg *PropConfig, r *SolveResult, root, repo, scrat
 	}
 	confirmed := false
 	if r.Status == "sat" {
-		model := extractModel(r.Output)
-		fmt.Fprintf(&sb, "\ncounterexample (solver model, parameters and named values):\n%s\n", model)
+		model := evalScalars(r)
+		fmt.Fprintf(&sb, "\ncounterexample (values of the named scalars under the solver's model):\n%s\n", model)
 		if out, ok := tryReplay(p, cfg, r, root, repo, scratch); out != "" {
 			fmt.Fprintf(&sb, "\nreplay against the real code:\n%s\n", out)
 			confirmed = ok
@@ -486,4 +487,53 @@ func writeEvidence(root string, cfg *PropConfig, tier string, seed int, results 
 	data, _ := json.MarshalIndent(ev, "", " ")
 	os.MkdirAll(filepath.Join(root, "evidence"), 0o755)
 	os.WriteFile(filepath.Join(root, "evidence", cfg.ID+".json"), append(data, '\n'), 0o644)
+}
+
+var scalarDeclRe = regexp.MustCompile(`^\((?:define-fun|declare-const) (\S+) (?:\(\) )?(Int|Bool|Real|Slice|Iface)\b`)
+
+// evalScalars re-runs the solver that found the model and asks for the values
+// of every named scalar of the script (parameters, loads, phis, results).
+func evalScalars(r *SolveResult) string {
+	var names []string
+	for _, l := range r.Obl.vc.out[:r.Obl.PrefixLen] {
+		for _, line := range strings.Split(l, "\n") {
+			if m := scalarDeclRe.FindStringSubmatch(line); m != nil {
+				names = append(names, m[1])
+			}
+		}
+	}
+	if len(names) == 0 {
+		return extractModel(r.Output)
+	}
+	script := r.Obl.Script() + "(get-value (" + strings.Join(names, " ") + "))\n"
+	f := r.File + ".values.smt2"
+	os.WriteFile(f, []byte(script), 0o644)
+	solver := r.Solver
+	if solver == "" {
+		solver = "z3-new"
+	}
+	args := []string{"-T:20", f}
+	if solver == "cvc5" {
+		args = []string{"--tlimit=20000", f}
+	}
+	out, _ := exec.Command(solver, args...).CombinedOutput()
+	txt := string(out)
+	if i := strings.Index(txt, "("); i >= 0 {
+		txt = txt[i:]
+	}
+	r.Values = txt
+	var keep []string
+	for _, line := range strings.Split(txt, "\n") {
+		line = strings.TrimSpace(line)
+		if strings.HasPrefix(line, "((") {
+			line = line[1:]
+		}
+		if strings.HasPrefix(line, "(") {
+			keep = append(keep, "  "+line)
+		}
+	}
+	if len(keep) > 400 {
+		keep = keep[:400]
+	}
+	return strings.Join(keep, "\n")
 }
